@@ -32,11 +32,12 @@ def gen_config(rng, escape=None, kicks=None, ntout=None, cls=None):
     meth = rng.choice(BH_METHODS)
     feh = rng.choice([-2.5, -2.0, -1.5, -1.0, -0.5, 0.0, 0.3, 0.5, rng.uniform(-2.5, 0.5)])
     nt = ntout or rng.choice([1, 1, 2, 3, 4])
-    tout = [rng.choice([rng.uniform(0, 14000), rng.uniform(1, 100), 12000.0, 0.0]) for _ in range(nt)]
+    # (incl. ages of a Myr or two: the heaviest stars of the IFMR grid have died, those of the IMF not yet - no BH exists)
+    tout = [rng.choice([rng.uniform(0, 14000), rng.uniform(1, 100), 12000.0, 0.0, rng.uniform(1.05, 2.5)]) for _ in range(nt)]
     tout = list(dict.fromkeys(tout))
     N0 = 10 ** rng.uniform(4, 7)
     cfg = dict(cls=cls or "EvolvedMF", m_breaks=mb, a_slopes=a, nbins=nbins, FeH=feh, tout=tout, N0=N0, BH_IFMR_method=meth,
-               NS_ret=rng.choice([0.1, 0.0, 1.0, rng.random()]), BH_ret_int=rng.choice([1.0, 1.0, 0.5, rng.random()]), BH_ret_dyn=1.0,
+               NS_ret=rng.choice([0.1, 0.0, 1.0, rng.random()]), BH_ret_int=rng.choice([1.0, 1.0, 0.5, rng.random(), 0.0]), BH_ret_dyn=1.0,
                binning_method=rng.choice(["default", "default", "split_linear"]), esc_rate=0.0)
     esc = rng.random() < 0.5 if escape is None else escape
     if esc:
